@@ -44,6 +44,9 @@ type impl struct {
 	lookup   func(id string) int
 	stats    func() (int, int)
 	closeFn  func()
+	// gateSave (pools persisting through an AllocationStore): the next SaveAllocation parks before it writes;
+	// parked is closed when it got there, open lets it go on
+	gateSave func() (parked <-chan struct{}, open func())
 }
 
 // Adapter describes one (implementation, geometry) pair.
@@ -400,6 +403,36 @@ func (f *failingAllocStore) SaveAllocation(ctx context.Context, a allocator.Allo
 	return f.MemoryAllocationStore.SaveAllocation(ctx, a)
 }
 
+// gateAllocStore parks one SaveAllocation on request (scheduler gate for the window between the in-memory
+// allocation and its persistence; harness code, no hook in /repo).
+type gateAllocStore struct {
+	*allocator.MemoryAllocationStore
+	mu     sync.Mutex
+	parked chan struct{}
+	open   chan struct{}
+}
+
+func (g *gateAllocStore) SaveAllocation(ctx context.Context, a allocator.AllocationRecord) error {
+	g.mu.Lock()
+	parked, open := g.parked, g.open
+	g.parked, g.open = nil, nil
+	g.mu.Unlock()
+	if parked != nil {
+		close(parked)
+		<-open
+	}
+	return g.MemoryAllocationStore.SaveAllocation(ctx, a)
+}
+
+func (g *gateAllocStore) arm() (<-chan struct{}, func()) {
+	parked, open := make(chan struct{}), make(chan struct{})
+	g.mu.Lock()
+	g.parked, g.open = parked, open
+	g.mu.Unlock()
+	var once sync.Once
+	return parked, func() { once.Do(func() { close(open) }) }
+}
+
 func poolAllocatorAdapter(g Geometry) Adapter {
 	n := g.NUnits()
 	return Adapter{Impl: "allocator.PoolAllocator", Geo: g, Mode: "session", Usable: seq(0, n-1),
@@ -447,6 +480,12 @@ func localAllocatorAdapter(g Geometry) Adapter {
 				panic(err)
 			}
 			im := &impl{objs: []any{la}}
+			// the pool persists through the allocator's own store; put the gate in between (the pool's store field is an interface)
+			if pa, ok := la.GetPool("p"); ok {
+				gs := &gateAllocStore{MemoryAllocationStore: core.Field(la, "store").Interface().(*allocator.MemoryAllocationStore)}
+				core.Field(pa, "store").Set(reflect.ValueOf(gs))
+				im.gateSave = gs.arm
+			}
 			im.alloc = func(id string) (int, error) {
 				p, err := la.Allocate(bg, id, "p")
 				if err != nil {
